@@ -134,3 +134,10 @@ def is_multi(x, name="MultiImage"):
 
 def perms(seq):
     return list(itertools.permutations(seq))
+
+
+def dhash(obj):
+    """Deterministic hash (the builtin hash of str is randomised per process)."""
+    import zlib
+
+    return zlib.crc32(repr(obj).encode())
